@@ -17,7 +17,7 @@ from vt import sym
 from vt.props._recv import InlineExecutor, Lab, ackable, encode, make_broker
 
 KINDS = ("valid", "malformed", "unknown", "malformed_raw", "empty", "empty_raw", "late_task")
-OUTCOMES = ("return", "raise", "backend_fail", "hook_raise", "never", "timeout", "timeout_cleanup", "backend_cancelled")
+OUTCOMES = ("return", "raise", "backend_fail", "hook_raise", "never", "timeout", "timeout_cleanup", "backend_cancelled", "timeout_zero")
 
 
 class Run:
@@ -86,7 +86,7 @@ def run(c: sym.Ctx, spec: Dict[str, Any], on_step: Any = None) -> Run:
     async def target(i: int) -> Any:
         lab.rec("task_start", i)
         try:
-            if r.outcomes[i] in ("never", "timeout", "timeout_cleanup"):
+            if r.outcomes[i] in ("never", "timeout", "timeout_cleanup", "timeout_zero"):
                 try:
                     await lab.gate(f"hang:{i}")
                 except asyncio.CancelledError:
@@ -101,7 +101,46 @@ def run(c: sym.Ctx, spec: Dict[str, Any], on_step: Any = None) -> Run:
         finally:
             lab.rec("task_end", i)
 
-    broker.register_task(target, task_name="t")
+    executor: Any = InlineExecutor()
+    if spec.get("sync"):
+        import concurrent.futures
+
+        class GateExecutor(concurrent.futures.Executor):
+            """a pool whose worker 'threads' finish when the scheduler opens the task's gate (deterministic long-running sync tasks)"""
+
+            def submit(self, fn: Any, /, *a: Any, **k: Any) -> Any:
+                f: Any = concurrent.futures.Future()
+                i = a[1][0] if len(a) > 1 and a[1] else -1  # _run_sync(target, args, kwargs)
+                lab.rec("task_start", i)
+                gate = lab.loop.create_future()
+                lab.gates[f"task:{i}"] = gate
+
+                def finish(_: Any) -> None:
+                    try:
+                        f.set_result(fn(*a, **k))
+                    except BaseException as exc:  # noqa: BLE001
+                        f.set_exception(exc)
+                    lab.rec("task_end", i)
+
+                gate.add_done_callback(finish)
+                return f
+
+        executor = GateExecutor()
+
+        def target_sync(i: int) -> Any:
+            if r.outcomes[i] == "raise":
+                raise ValueError(f"boom{i}")
+            return i
+
+        broker.register_task(target_sync, task_name="t")
+    else:
+        broker.register_task(target, task_name="t")
+    if spec.get("record_mw"):
+        from vt.props._recv import make_middleware
+
+        broker.add_middlewares(make_middleware(lab, 0, {h: "sync" for h in ("pre_execute", "on_error", "post_execute", "post_save")}))
+    if spec.get("ready"):
+        lab.no_arrival_gates = True  # type: ignore[attr-defined]
     msgs: List[Any] = []
     for i in range(M):
         if r.kinds[i] == "malformed":
@@ -116,14 +155,14 @@ def run(c: sym.Ctx, spec: Dict[str, Any], on_step: Any = None) -> Run:
             msgs.append(bytes([45, 49]))
             continue
         else:
-            labels = {"hook_raise": True} if r.outcomes[i] == "hook_raise" else ({"timeout": 5} if r.outcomes[i] in ("timeout", "timeout_cleanup") else {})
+            labels = {"hook_raise": True} if r.outcomes[i] == "hook_raise" else ({"timeout": 5} if r.outcomes[i] in ("timeout", "timeout_cleanup") else ({"timeout": 0} if r.outcomes[i] == "timeout_zero" else {}))
             name = {"valid": "t", "late_task": "late"}.get(r.kinds[i], "nope")
             # only some labels carry type information (the others were added by a pre_send hook / foreign producer)
             data = encode(broker, name, f"id{i}", [i], {**labels, "tag": "x"}, labels_types={"tag": 3})
         msgs.append(ackable(lab, i, data, spec.get("ack_mode", False)) if spec.get("ackable", True) else data)
     broker.script = msgs
     recv = Receiver(
-        broker, executor=InlineExecutor(), run_startup=False, max_async_tasks=A, max_prefetch=P,
+        broker, executor=executor, run_startup=False, max_async_tasks=A, max_prefetch=P,
         max_tasks_to_execute=N, wait_tasks_timeout=r.wtt,
     )
     ident: Dict[int, List[int]] = {}
